@@ -176,6 +176,9 @@ def cases(ctx):
     for t in (0x70, 0x83, 0x84, 0x35):
         for variant in range(8):
             yield ("bf2special", t, variant)
+    for t in range(0x00, 0x100):
+        for where in ("first", "after-section", "after-reboot", "second-group"):
+            yield ("bf2types", t, where)
     for c in c05.cases(ctx):
         yield ("edit",) + tuple(c[1:])
 
@@ -354,18 +357,24 @@ def run_case(ctx, case):
             7: head + [("raw", ":0000" + "%02X" % t + "03050000"), ("raw", ":0000FF00"), ("raw", "##x")],
         }[variant]
         return guarded(o, "bf2", call_entry, ctx, "bf2", None, "", B.render(evs))
+    if fam == "bf2types":
+        _, t, where = case
+        img = shapes.payload(ctx, "c14-ty", 10, 0)
+        head = [("header", "Bf3Update", "yes"), ("instr", "SELECT_IF", {"PROTOCOL": "BRP"})]
+        sec = [("group", B.image_lines(0x84, img, 5, extra=b"\x01"))]
+        grp = [("group", B.image_lines(t, img[:6], 3, index0=9, extra=b"\x02"))]
+        evs = {"first": head + grp, "after-section": head + sec + grp,
+               "after-reboot": head + sec + [("instr", "REBOOT", {})] + grp + [("instr", "REBOOT", {})],
+               "second-group": head + [("group", B.image_lines(0x35, img, 5))] + grp}[where]
+        return guarded(o, "bf2", call_entry, ctx, "bf2", None, "", B.render(evs))
     if fam == "edit":
         fi, edits = case[1], case[2]
         import copy
         key, comps = c05.base_files(ctx)[fi]
-        ast = L.build(comps, 5, key)
-        base = L.BF3_SIG + L.emit(ast, key)
-        info = {"dir_len": int.from_bytes(base[5:9], "big")}
-        info["body_start"] = 9 + info["dir_len"]
-        ast = copy.deepcopy(ast)
+        ast = copy.deepcopy(L.build(comps, 5, key))
         try:
             for name, i in edits:
-                c05.OPS[name](ast, i, key, info)
+                c05.OPS[name](ast, i, key, {})
             binary = ast.get("sig", L.BF3_SIG) + c05.emit_with_post(ast, key)
         except (IndexError, KeyError, ValueError, OverflowError):
             return Outcome("edit-not-applicable", False)
